@@ -461,6 +461,7 @@ def rule_scan(ctx, M, u):
     with ctx.renamed({"C20.COVER": "C01.SCAN", "C20.CONT": "C01.SCAN"}):
         c20.rule_cover(ctx, M, u)
         c20.rule_cont(ctx, M, u)
+        c20.rule_no_bailout(ctx, M, u)
 
 
 def rule_done(ctx, M, u):
